@@ -1,27 +1,27 @@
 #!/bin/bash
 # usage: seedcheck.sh <seed-dir-with-_out> <property> <name> <demo-pkg-dir> [test pkgs...]
-# Confirms a seeded change (patch.diff + demo_test.go) in a scratch worktree, then runs the property's check against it in /repo (applied and undone).
+# Confirms a seeded change (patch.diff + demo_test.go) in a scratch worktree, then runs the property's check against that worktree (VERIF_REPO); /repo is not touched.
 set -u
 export GOFLAGS=-mod=mod GOPROXY=off GOSUMDB=off GOTOOLCHAIN=local
 OUT="$1/_out"; PROP="$2"; NAME="$3"; PKG="$4"; shift 4
 TESTS="${*:-./...}"
 WT=$(mktemp -d /tmp/seedchk.XXXXXX); rmdir "$WT"
 git -C /repo worktree add -q --detach "$WT" HEAD || exit 2
-cleanup() { git -C /repo worktree remove --force "$WT" 2>/dev/null; rm -rf "$WT"; }
+cleanup() { git -C /repo worktree remove --force "$WT" 2>/dev/null; rm -rf "$WT" "$WT.log" "$WT.check"; }
 trap cleanup EXIT
 cd "$WT"
 git apply "$OUT/patch.diff" || { echo "SEED: patch does not apply"; exit 2; }
 go build ./... || { echo "SEED: does not build"; exit 2; }
-if go test -vet=off -count=1 $TESTS >/tmp/seedchk.log 2>&1; then echo "SEED: existing tests pass with the change"; else echo "SEED: existing tests FAIL with the change"; tail -5 /tmp/seedchk.log; exit 2; fi
+if go test -vet=off -count=1 $TESTS >$WT.log 2>&1; then echo "SEED: existing tests pass with the change"; else echo "SEED: existing tests FAIL with the change"; tail -5 $WT.log; exit 2; fi
 cp "$OUT/demo_test.go" "$PKG/verif_seed_demo_test.go"
-if go test -vet=off -count=1 "./$PKG" >/tmp/seedchk.log 2>&1; then echo "SEED: demo PASSES with the change (bad)"; exit 2; else echo "SEED: demo fails with the change"; fi
+if go test -vet=off -count=1 "./$PKG" >$WT.log 2>&1; then echo "SEED: demo PASSES with the change (bad)"; exit 2; else echo "SEED: demo fails with the change"; fi
 git apply -R "$OUT/patch.diff"
-if go test -vet=off -count=1 "./$PKG" >/tmp/seedchk.log 2>&1; then echo "SEED: demo passes without the change"; else echo "SEED: demo FAILS without the change (bad)"; tail -5 /tmp/seedchk.log; exit 2; fi
+if go test -vet=off -count=1 "./$PKG" >$WT.log 2>&1; then echo "SEED: demo passes without the change"; else echo "SEED: demo FAILS without the change (bad)"; tail -5 $WT.log; exit 2; fi
+git apply "$OUT/patch.diff" || exit 2
+rm -f "$PKG/verif_seed_demo_test.go"
 cd /verif
-git -C /repo apply "$OUT/patch.diff" || exit 2
-./check "$PROP" > /tmp/seedchk.check 2>&1; RC=$?
-git -C /repo checkout -- .
-grep -E "VIOLATION|FAILED" /tmp/seedchk.check | head -8
+VERIF_REPO=$WT ./check "$PROP" -evidence $WT/_ev.json -work $WT/_work -replays $WT/_replays > $WT.check 2>&1; RC=$?
+grep -E "VIOLATION|FAILED" $WT.check | head -8; rm -f $WT.check
 echo "SEED: check $PROP exit=$RC"
 mkdir -p "/verif/seeded/$NAME"
 cp "$OUT/patch.diff" "$OUT/demo_test.go" "/verif/seeded/$NAME/"
